@@ -52,6 +52,12 @@ type sessSpec struct {
 
 func decodeOps(g interface{}) []mach.Op { return mach.DecOps(g) }
 
+func sameOuts(a, b interface{}) bool {
+	x, _ := json.Marshal(a)
+	y, _ := json.Marshal(b)
+	return string(x) == string(y)
+}
+
 func runOne(id int, raw []byte, timeout time.Duration) O {
 	var ss sessSpec
 	if err := json.Unmarshal(raw, &ss); err != nil {
@@ -104,6 +110,11 @@ func runOne(id int, raw []byte, timeout time.Duration) O {
 				out.GuardSource = &core.ActionSource{Interpreter: "ecmascript", Source: mach.JS(ops)}
 			}
 			iop.OutputSet = append(iop.OutputSet, out)
+		}
+		// (two steps that expect the same may be written with ONE output set, the same slice: what the first step matched
+		// must not count for the second)
+		if k := len(s.IOs); k > 0 && len(iop.OutputSet) > 0 && sameOuts(ss.Steps[k-1].Outs, st.Outs) {
+			iop.OutputSet = s.IOs[k-1].OutputSet
 		}
 		s.IOs = append(s.IOs, iop)
 	}
